@@ -38,6 +38,11 @@ type Expected struct {
 }
 
 // OracleOut is what one oracle process observed, in execution order.
+// StepsBeyondSimulator marks a call of the instrumented pass that overflowed one of the
+// simulator's fixed tables (more than 4096 live goroutines, 1024 timers, ...): its outcome
+// is not compared and simulated runs do not use it.
+const StepsBeyondSimulator = int64(1) << 60
+
 type OracleOut struct {
 	Order     string   `json:"order"`
 	IDs       []int    `json:"ids"`
